@@ -825,6 +825,20 @@ class Facts:
                 for v in t.values:
                     out |= self.from_test(v, False)
             return frozenset(out)
+        def _get_key(x):
+            """d.get(k) / d.get(k, None) -> (d, k): a non-None result proves the key is present."""
+            if isinstance(x, ast.Call) and isinstance(x.func, ast.Attribute) and x.func.attr == "get" \
+                    and not x.keywords and 1 <= len(x.args) <= 2 \
+                    and (len(x.args) == 1 or (isinstance(x.args[1], ast.Constant) and x.args[1].value is None)):
+                return dump(x.func.value), dump(x.args[0])
+            return None
+        gk = _get_key(t)
+        if gk and positive:
+            out.add(("haskey",) + gk)
+        if isinstance(t, ast.Call) and isinstance(t.func, ast.Name) and t.func.id == "isinstance" and positive \
+                and len(t.args) == 2 and _get_key(t.args[0]) \
+                and "None" not in dump(t.args[1]):
+            out.add(("haskey",) + _get_key(t.args[0]))
         if isinstance(t, (ast.Name, ast.Attribute, ast.Subscript)) and positive:
             out.add(("truthy", dump(t)))
             out.add(("notnone", dump(t)))
@@ -836,8 +850,12 @@ class Facts:
                 out.add(("haskey", dump(r), dump(l)))
             if isinstance(op, ast.IsNot) and isinstance(r, ast.Constant) and r.value is None and positive:
                 out.add(("notnone", dump(l)))
+                if _get_key(l):
+                    out.add(("haskey",) + _get_key(l))
             if isinstance(op, ast.Is) and isinstance(r, ast.Constant) and r.value is None and not positive:
                 out.add(("notnone", dump(l)))
+                if _get_key(l):
+                    out.add(("haskey",) + _get_key(l))
             if isinstance(l, ast.Call) and isinstance(l.func, ast.Name) and l.func.id == "len" \
                     and isinstance(r, ast.Constant) and isinstance(r.value, int):
                 x = dump(l.args[0])
